@@ -125,7 +125,7 @@ pub fn run(seed: u64, tier: &str, out: &mut Out) {
             let mut exp: Vec<String> = expected.iter().map(|l| l.trim_end().to_string()).collect();
             while exp.last().map_or(false, |r| r.is_empty()) { exp.pop(); }
             if expected.iter().all(|l| l.len() < 200) && got != exp { verdict = format!("FAIL fidelity tpl={tpl:?} got={got:?} exp={exp:?}"); }
-            std::mem::forget(pb);
+            drop(pb); // the rows were read above; a forgotten bar would leak its 50x200 recorder (65 GB over a thorough run)
         }
         out.emit(&format!("TPL {fx} {}", cps(&tpl)), &format!("{c} ORACLE {}", verdict.replace('\n', "\\n")));
     }
